@@ -641,7 +641,7 @@ def design(draw, flavor, reset=None, max_stmts=5, depth=2):
         v = st.integers(0, 1) if kind == "bit" else st.integers(0, (1 << W) - 1)
         # objects without default are undefined until first written: keep them, but rare, because a read of an
         # undefined object in a condition ends the comparable part of a run
-        return st.one_of(st.none(), v, v, v, v, v, v) if allow_none else v
+        return st.integers(0, 6).flatmap(lambda k: st.none() if k == 0 else v) if allow_none else v
 
     outputs = []
     for i in range(draw(st.integers(1, 2))):
